@@ -832,7 +832,14 @@ def add_empty_sandbox_lua_module(wtp: "Wtp") -> None:
     ns = wtp.NAMESPACE_DATA["Module"]
     ns_name = ns["name"]
     ns_id = ns["id"]
-    if not wtp.page_exists(f"{ns_name}:_sandbox_phase1", ns_id):
+    # Not page_exists(): title lookups treat "_" as a blank and would never
+    # find this title, so every context would rewrite the page (a database
+    # write on the first Lua use of every worker).
+    exists = wtp.db_conn.execute(
+        "SELECT 1 FROM pages WHERE title = ? AND namespace_id = ?",
+        (f"{ns_name}:_sandbox_phase1", ns_id),
+    ).fetchone()
+    if exists is None:
         wtp.add_page(
             f"{ns_name}:_sandbox_phase1", ns_id, body="", model="Scribunto"
         )
